@@ -106,6 +106,116 @@ fn drive_zoo(r: &mut Rng, histories: u64) {
     }
 }
 
+// ---------------------------------------------------------------- direction (c): through the real Bridge
+fn case_c(app: &str, f: &str, b: &[u8], acc: bool, what: &str) {
+    println!("{{\"d\":\"c\",\"app\":{},\"f\":{},\"b\":\"{}\",\"acc\":{},\"what\":{}}}", json_str(app), json_str(f), hex(b), acc, json_str(what));
+}
+fn filled(n: usize, seed: u8) -> Vec<u8> { let mut v = vec![seed; n]; if n > 2 { v[0] = 1; v[n / 2] = 2; v[n - 1] = 3; } v }
+
+/// Schema-valid events and outputs, short and LONG, offered to real bridges (fresh one per case).
+fn direct_c(r: &mut Rng, n: u64) {
+    use crux_core::bridge::{Bridge, Request};
+    use wire_common::apps::malapp;
+    // ---- events
+    let mut mal_events: Vec<(malapp::MalEvent, &str)> = (0..n).map(|_| (malapp::MalEvent::arb(r), "random")).collect();
+    for size in [65_000usize, 65_536, 70_000, 200_000] {
+        mal_events.push((malapp::MalEvent::Note { text: "t".into(), blob: filled(size, 0xab), nums: vec![], flag: None }, "long blob"));
+    }
+    mal_events.push((malapp::MalEvent::Note { text: "y".repeat(80_000), blob: vec![], nums: vec![7; 20_000], flag: Some(true) }, "long text and 20 000 numbers"));
+    for (e, what) in mal_events {
+        let bytes = bridge_opts().serialize(&e).unwrap();
+        let b: Bridge<malapp::App> = Bridge::new(crux_core::Core::new());
+        let acc = matches!(catch_unwind(AssertUnwindSafe(|| b.process_event(&bytes))), Ok(Ok(_)));
+        case_c("malapp", "(FTypeName \"MalEvent\")", &bytes, acc, what);
+    }
+    let mut zoo_events: Vec<(zoo::ZooEvent, &str)> = (0..n).map(|_| (zoo::ZooEvent::arb(r), "random")).collect();
+    zoo_events.push((zoo::ZooEvent::Seq(vec![(0..10_000).map(|i| format!("s{}", i % 7)).collect()]), "10 000 short strings"));
+    zoo_events.push((zoo::ZooEvent::Chars(vec!['\u{e9}'; 40_000]), "40 000 two-byte chars"));
+    for (e, what) in zoo_events {
+        let bytes = bridge_opts().serialize(&e).unwrap();
+        let b: Bridge<zoo::App> = Bridge::new(crux_core::Core::new());
+        let acc = matches!(catch_unwind(AssertUnwindSafe(|| b.process_event(&bytes))), Ok(Ok(_)));
+        case_c("zoo", "(FTypeName \"ZooEvent\")", &bytes, acc, what);
+    }
+    let mut kv_events: Vec<(kvapp::Event, &str)> = (0..n).map(|_| (kvapp::Event::arb(r), "random")).collect();
+    for size in [70_000usize, 200_000] {
+        kv_events.push((kvapp::Event::KvSet { api: kvapp::Api::Command, key: "k".into(), value: filled(size, 0) }, "long Set value"));
+        kv_events.push((kvapp::Event::Http { which: 200, body: filled(size, 0xff) }, "long http body"));
+    }
+    kv_events.push((kvapp::Event::KvGet { api: kvapp::Api::Capability, key: "x".repeat(70_000) }, "long key"));
+    for (e, what) in kv_events {
+        let bytes = bridge_opts().serialize(&e).unwrap();
+        let b: Bridge<kvapp::App> = Bridge::new(crux_core::Core::new());
+        let acc = matches!(catch_unwind(AssertUnwindSafe(|| b.process_event(&bytes))), Ok(Ok(_)));
+        case_c("kvapp", "(FTypeName \"Event\")", &bytes, acc, what);
+    }
+    // ---- outputs of outstanding requests
+    let respond_kv = |ev: kvapp::Event, out: Vec<u8>, f: &str, what: &str| {
+        let b: Bridge<kvapp::App> = Bridge::new(crux_core::Core::new());
+        let batch = b.process_event(&bridge_opts().serialize(&ev).unwrap()).unwrap_or_default();
+        let reqs: Vec<Request<kvapp::EffectFfi>> = bridge_opts().deserialize(&batch).unwrap_or_default();
+        let Some(q) = reqs.iter().find(|q| !matches!(q.effect, kvapp::EffectFfi::Render(_))) else { return; };
+        let acc = matches!(catch_unwind(AssertUnwindSafe(|| b.handle_response(q.id.0, &out))), Ok(Ok(_)));
+        case_c("kvapp", f, &out, acc, what);
+    };
+    use crux_kv::{value::Value, KeyValueResponse, KeyValueResult};
+    for api in [kvapp::Api::Capability, kvapp::Api::Command] {
+        for size in [0usize, 1, 65_000, 70_000, 200_000] {
+            let out = bridge_opts().serialize(&KeyValueResult::Ok { response: KeyValueResponse::Get { value: Value::Bytes(filled(size, 0x5a)) } }).unwrap();
+            respond_kv(kvapp::Event::KvGet { api, key: "k".into() }, out, "(FTypeName \"KeyValueResult\")", "Get response, value of that many bytes");
+        }
+        let keys: Vec<String> = (0..10_000).map(|i| format!("k{}", i % 10)).collect();
+        let out = bridge_opts().serialize(&KeyValueResult::Ok { response: KeyValueResponse::ListKeys { keys, next_cursor: u64::MAX } }).unwrap();
+        respond_kv(kvapp::Event::KvList { api, prefix: "".into(), cursor: 0 }, out, "(FTypeName \"KeyValueResult\")", "page of 10 000 keys");
+    }
+    for which in [3u8, 200] {
+        for size in [0usize, 65_536, 200_000] {
+            let resp = crux_http::protocol::HttpResponse { status: 200, headers: vec![crux_http::protocol::HttpHeader { name: "x-a".into(), value: "b".into() }], body: filled(size, 0x11) };
+            let out = bridge_opts().serialize(&crux_http::protocol::HttpResult::Ok(resp)).unwrap();
+            respond_kv(kvapp::Event::Http { which, body: vec![] }, out, "(FTypeName \"HttpResult\")", "http response body of that many bytes");
+        }
+    }
+    for _ in 0..n {
+        let ev = kvapp::Event::arb(r);
+        let b: Bridge<kvapp::App> = Bridge::new(crux_core::Core::new());
+        let batch = b.process_event(&bridge_opts().serialize(&ev).unwrap()).unwrap_or_default();
+        let reqs: Vec<Request<kvapp::EffectFfi>> = bridge_opts().deserialize(&batch).unwrap_or_default();
+        let Some(q) = reqs.iter().find(|q| !matches!(q.effect, kvapp::EffectFfi::Render(_))) else { continue; };
+        let (out, f) = match &q.effect {
+            kvapp::EffectFfi::KeyValue(op) => (bridge_opts().serialize(&kv_response(r, op)).unwrap(), "(FTypeName \"KeyValueResult\")"),
+            kvapp::EffectFfi::Http(_) => (bridge_opts().serialize(&http_response(r)).unwrap(), "(FTypeName \"HttpResult\")"),
+            kvapp::EffectFfi::Time(t) => (bridge_opts().serialize(&time_response(r, t)).unwrap(), "(FTypeName \"TimeResponse\")"),
+            kvapp::EffectFfi::Platform(_) => (bridge_opts().serialize(&crux_platform::PlatformResponse::arb(r)).unwrap(), "(FTypeName \"PlatformResponse\")"),
+            kvapp::EffectFfi::Render(_) => continue,
+        };
+        let acc = matches!(catch_unwind(AssertUnwindSafe(|| b.handle_response(q.id.0, &out))), Ok(Ok(_)));
+        case_c("kvapp", f, &out, acc, "random matching response");
+    }
+    // malapp: answers (one-shot) and ticks (stream)
+    let mut answers: Vec<(malapp::Answer, &str)> = (0..n).map(|_| (malapp::Answer::arb(r), "random")).collect();
+    answers.push((malapp::Answer::Items { items: (0..3000).map(|i| malapp::Item { name: format!("n{}", i % 5), data: vec![i as u8; 20], weight: Some(i) }).collect(), note: None }, "3000 items"));
+    answers.push((malapp::Answer::Items { items: vec![malapp::Item { name: "big".into(), data: filled(150_000, 9), weight: None }], note: Some("z".repeat(66_000)) }, "one big item"));
+    for (a, what) in answers {
+        let out = bridge_opts().serialize(&a).unwrap();
+        let b: Bridge<malapp::App> = Bridge::new(crux_core::Core::new());
+        let batch = b.process_event(&bridge_opts().serialize(&malapp::MalEvent::Ask { tag: 1, text: "q".into() }).unwrap()).unwrap_or_default();
+        let reqs: Vec<Request<malapp::EffectFfi>> = bridge_opts().deserialize(&batch).unwrap_or_default();
+        let Some(q) = reqs.first() else { continue; };
+        let acc = matches!(catch_unwind(AssertUnwindSafe(|| b.handle_response(q.id.0, &out))), Ok(Ok(_)));
+        case_c("malapp", "(FTypeName \"Answer\")", &out, acc, what);
+    }
+    for k in 0..n.min(20) {
+        let t = malapp::Tick { seq: k, label: if k == 0 { "L".repeat(70_000) } else { String::arb(r) } };
+        let out = bridge_opts().serialize(&t).unwrap();
+        let b: Bridge<malapp::App> = Bridge::new(crux_core::Core::new());
+        let batch = b.process_event(&bridge_opts().serialize(&malapp::MalEvent::Watch { tag: 1 }).unwrap()).unwrap_or_default();
+        let reqs: Vec<Request<malapp::EffectFfi>> = bridge_opts().deserialize(&batch).unwrap_or_default();
+        let Some(q) = reqs.first() else { continue; };
+        let acc = matches!(catch_unwind(AssertUnwindSafe(|| b.handle_response(q.id.0, &out))), Ok(Ok(_)));
+        case_c("malapp", "(FTypeName \"Tick\")", &out, acc, "tick");
+    }
+}
+
 fn main() {
     let a: Vec<String> = std::env::args().collect();
     let seed: u64 = a.get(1).and_then(|s| s.parse().ok()).unwrap_or(1);
@@ -162,4 +272,5 @@ fn main() {
     drive_kvapp(&mut r, hist);
     drive_zoo(&mut r, hist / 2);
     drive_malapp(&mut r, hist / 2);
+    direct_c(&mut r, per_type.min(200));
 }
